@@ -70,6 +70,23 @@ Edges == {
   Ed("eci2ntw",     "ECI",   "NTW",   "derived", T, T, T, F, F, T) }
 
 EdgeNamed(n) == CHOOSE e \in Edges : e.fn = n
+EdgeNames    == {e.fn : e \in Edges}
+
+\* the other conversions each function calls (read off methods.py).  Not part of the property: the driver
+\* uses it only to name the most likely culprit when closed walks fail.
+Uses(fn) ==
+  CASE fn = "eci2sez"     -> {"eci2ecef", "ecef2sez"}
+    [] fn = "sez2eci"     -> {"sez2ecef", "ecef2eci"}
+    [] fn = "eci2lla"     -> {"eci2ecef", "ecef2lla"}
+    [] fn = "lla2eci"     -> {"lla2ecef", "ecef2eci"}
+    [] fn = "eci2razel"   -> {"eci2ecef", "ecef2lla", "ecef2sez", "sez2razel"}
+    [] fn = "radec2razel" -> {"eci2ecef", "ecef2lla", "ecef2sez", "sez2razel"}
+    [] fn = "razel2radec" -> {"eci2ecef", "ecef2lla", "razel2sez", "sez2ecef", "ecef2eci"}
+    [] fn = "radarObs2eciPosition" -> {"eci2ecef", "ecef2lla", "razel2sez", "sez2ecef", "ecef2eci"}
+    [] fn = "eci2radec"   -> {"eci2ecef", "ecef2lla", "ecef2sez", "sez2razel", "razel2sez", "sez2ecef", "ecef2eci"}
+    [] fn = "eci2ntw"     -> {"ntw2eci"}
+    [] OTHER              -> {}
+ASSUME UsesAreEdges == \A n \in EdgeNames : Uses(n) \subseteq EdgeNames
 
 \* ---- well-formedness of the graph itself (checked once by TLC) ----
 ASSUME EdgesTyped   == \A e \in Edges : e.src \in Frames /\ e.dst \in Frames /\ e.src # e.dst
@@ -126,7 +143,7 @@ EmitWalk == Closed =>
                             ref |-> Needs(LAMBDA e : e.ref)]))
 \* the edge table itself, for the driver (emitted once, from the initial states)
 EmitEdges == (walk = <<>> /\ start = CHOOSE s \in Starts : TRUE) =>
-  PrintT("EDGES " \o ToJson([cart |-> Cartesian, edges |-> Edges]))
+  PrintT("EDGES " \o ToJson([cart |-> Cartesian, edges |-> Edges, uses |-> [n \in EdgeNames |-> Uses(n)]]))
 
 AllFrames == Frames
 =============================================================================
